@@ -139,7 +139,7 @@ def replay(rec: Dict[str, Any]) -> List[Tuple[str, Dict[str, Any], str]]:
 
 def run(chk: Check, tier: str, seed: int) -> None:
     recs: List[Dict[str, Any]] = []
-    plan = [("positions", None), ("selectors", None), ("selectors", [-5, 5]), ("selectors", [-3, 10]), ("selectors", [-10, 3])] + ([("pairs", None)] if tier == "thorough" else [])
+    plan = [("positions", None), ("selectors", None), ("selectors", [-5, 5]), ("selectors", [-3, 10]), ("selectors", [-10, 3]), ("selectors", [0, 5]), ("selectors", [-5, 0])] + ([("pairs", None)] if tier == "thorough" else [])
     for u, narrow in plan:
         r = tlc("MC_Typing", CFG.format(universe=u, lo=-narrow[0] if narrow else 100, hi=narrow[1] if narrow else 100), timeout=3000)
         chk.add_tlc(r)
@@ -161,7 +161,7 @@ def run(chk: Check, tier: str, seed: int) -> None:
     chk.rule = ("terminal states of MC_Typing.tla: 13 well-typed and 27 ill-typed constructs (non-singular or logical-typed comparison operands, value-typed "
                 "tests, arity, argument kinds, unknown functions, uncompared literals) in 11 positions (top level, under !, in parentheses, either side of && / ||, "
                 "nested filters, descendant segments) (thorough: all pairs), selectors with leading zeros / empty or comma-terminated lists / bounds at, inside and "
-                "outside +-(2^53-1) and, under narrowed limits -5..5, -3..10 and -10..3, at / inside / outside either limit and their mirror images, in 6 positions; every text "
+                "outside +-(2^53-1) and, under narrowed limits -5..5, -3..10, -10..3, 0..5 and -5..0, at / inside / outside either limit and their mirror images, in 6 positions; every text "
                 "is also compiled in a reconfigured environment and in one that has compiled well-typed calls of every function before; 3 spellings each; every program contains a filter or an injected defect")
     chk.assumptions += ["a leading zero in a slice bound is not in the property's list of refusals and is not classified"]
 
